@@ -42,7 +42,7 @@ func seedAlphabet(vseed int64, thorough bool) map[string][]byte {
 	}
 	K := 6
 	if thorough {
-		K = 40
+		K = 400
 	}
 	for i := 0; i < K; i++ {
 		out[fmt.Sprintf("rnd%d", i)] = rnd.New(vseed, fmt.Sprint("c12-seed-", i)).Bytes(24)
